@@ -9,6 +9,7 @@ import (
 	"sort"
 	"strings"
 	"sync"
+	"sync/atomic"
 	"time"
 
 	"golang.org/x/tools/go/ssa"
@@ -50,10 +51,11 @@ type Engine struct {
 	cfg      Config
 	traceOut io.Writer
 
-	icMu       sync.Mutex
-	icCache    map[*ssa.Function]interceptFn
-	wantModels bool
-	params     map[string]int
+	icMu        sync.Mutex
+	icCache     map[*ssa.Function]interceptFn
+	wantModels  bool
+	modelBudget int64 // full models are produced for the first so many completed paths only (witness replays sample from them)
+	params      map[string]int
 }
 
 type Decision struct {
@@ -752,9 +754,17 @@ func (w *Worker) runPath(entry *ssa.Function, item workItem) (res *PathResult, n
 		panic(*r.abortWith)
 	}
 	// path completed: obtain a full model for witness replay if wanted
-	if r.eng.wantModels {
+	if r.eng.wantModels && atomic.AddInt64(&r.eng.modelBudget, -1) >= 0 {
 		func() {
 			defer func() { recover() }()
+			// a witness model is a convenience (native cross-check of a sample of paths): give
+			// the solver a few seconds, not the proof time limit
+			if !r.modelOK {
+				r.w.solver.SetTimeout(8000)
+				defer r.w.solver.SetTimeout(r.eng.cfg.TimeoutMS)
+				u := r.solverUnknown
+				defer func() { r.solverUnknown = u }()
+			}
 			r.ensureModel()
 			r.res.Model = r.model
 			r.res.modelInputs = r.modelInputs(r.model)
@@ -811,6 +821,7 @@ type witnessRun struct {
 }
 
 func (e *Engine) Explore(entry *ssa.Function, name string) *ExploreResult {
+	atomic.StoreInt64(&e.modelBudget, 24)
 	start := time.Now()
 	out := &ExploreResult{Harness: name, Ends: map[string]int{}, Details: map[string]int{}, Witnesses: map[string]int{}, Checks: map[string]int{}}
 	var mu sync.Mutex
